@@ -24,7 +24,7 @@ func (vc *FuncVC) inputProbes() []probe {
 	e := vc.Engine
 	var ps []probe
 	var walk func(path string, v Val, t types.Type, depth int)
-	h0 := Heap{}
+	h0 := Heap{"#entry": "1"}
 	walk = func(path string, v Val, t types.Type, depth int) {
 		if depth > 5 {
 			return
